@@ -51,10 +51,10 @@ func escape(b *bytes.Buffer, r rune, force bool) {
 		}
 		s := strconv.FormatInt(int64(r), 16)
 		if r > 0xFFFF {
-			// \u takes exactly four hex digits, so runes beyond the BMP need the braced form
-			b.WriteString(`\x{`)
-			b.WriteString(s)
-			b.WriteRune('}')
+			// \u takes exactly four hex digits and \x{...} is not an escape under ECMAScript, so no
+			// escape of a rune beyond the BMP reads the same under every option set; the rune itself
+			// does: it is an ordinary pattern character and never pattern whitespace
+			b.WriteRune(r)
 			break
 		}
 		b.WriteString(`\u`)
